@@ -114,14 +114,14 @@ def parseAction (N : Nat) (s : State) (j : Json) : Except String Action := do
   | "recvVote" => pure (.recvVote (← nodeField N j "n") (← parseMsg N s (← j.getObjVal? "m")))
   | "clientAppend" => pure (.clientAppend (← nodeField N j "n") (← natField j "cmd"))
   | "sendAppend" =>
-    pure (.sendAppend (← nodeField N j "n") (← nodeField N j "dst") (← natField j "prev") (← natField j "k"))
+    pure (.sendAppend (← nodeField N j "n") (← nodeField N j "dst") (← natField j "prev") (← natField j "k") (← natField j "c"))
   | "recvAppend" => pure (.recvAppend (← nodeField N j "n") (← parseMsg N s (← j.getObjVal? "m")))
   | "recvAck" => pure (.recvAck (← nodeField N j "n") (← parseMsg N s (← j.getObjVal? "m")))
   | "advanceCommit" => pure (.advanceCommit (← nodeField N j "n") (← natField j "i"))
   | "stepDown" => pure (.stepDown (← nodeField N j "n"))
   | "apply" => pure (.apply (← nodeField N j "n"))
   | "observeTerm" => pure (.observeTerm (← nodeField N j "n") (← natField j "t"))
-  | "sendSnapshot" => pure (.sendSnapshot (← nodeField N j "n") (← nodeField N j "dst") (← natField j "k"))
+  | "sendSnapshot" => pure (.sendSnapshot (← nodeField N j "n") (← nodeField N j "dst") (← natField j "k") (← natField j "c"))
   | "recvSnapshot" => pure (.recvSnapshot (← nodeField N j "n") (← parseMsg N s (← j.getObjVal? "m")))
   | "lose" => pure (.lose (← parseMsg N s (← j.getObjVal? "m")))
   | "restart" => pure (.restart (← nodeField N j "n") (← natField j "c") (← natField j "ap"))
